@@ -106,6 +106,97 @@ Proof.
   - apply Z.eqb_neq in E. rewrite equal_name_ascii_fold_length by lia. reflexivity.
 Qed.
 
+(* ---- the fold loops of internal/cache.Key / KeyString / KeyWithPrefix / KeySimple (loopfunc): with enough
+   fuel (more than the name's length) each ends normally having appended `fold name` to the buffer and
+   left everything else alone *)
+Lemma app_snoc_fold (buf : bytes) c x R : c = fold_byte x -> (buf ++ [c]) ++ R = buf ++ fold_byte x :: R.
+Proof. intros ->. rewrite <- app_assoc. reflexivity. Qed.
+
+Ltac fold_loop_step x :=
+  unfold wrap8, two8;
+  split_ifs; (erewrite (app_snoc_fold _ _ x); [reflexivity|]); unfold fold_byte; split_ifs;
+  first [reflexivity | lia | exfalso; lia].
+
+Lemma keystring_loop_spec name fuel : forall lf n buf, (n <= length name)%nat -> (length name - n < lf)%nat ->
+  go_KeyString_loop1 fuel lf name buf (go_len name) (Z.of_nat n) =
+  (GoNext, (name, buf ++ fold (skipn n name), go_len name, go_len name)).
+Proof.
+  unfold go_len. induction lf as [|lf IH]; intros n buf Hn Hf; [lia|].
+  cbn [go_KeyString_loop1].
+  destruct (Z.ltb (Z.of_nat n) (Z.of_nat (length name))) eqn:E.
+  - apply Z.ltb_lt in E. rewrite (skipn_nth_cons 0 name n) by lia. rewrite !go_idx_nth by lia. rewrite Nat2Z.id.
+    set (x := nth n name 0). replace (Z.of_nat n + 1)%Z with (Z.of_nat (S n)) by lia.
+    cbn [fold map]. fold (fold (skipn (S n) name)). rewrite !IH by lia. fold_loop_step x.
+  - apply Z.ltb_ge in E. assert (n = length name) by lia. subst n. rewrite skipn_all. cbn [fold map]. rewrite app_nil_r. reflexivity.
+Qed.
+Lemma gen_KeyString_loop fuel name buf : (length name < fuel)%nat ->
+  go_KeyString_loop1_run fuel name buf (go_len name) = (GoNext, (name, buf ++ map fold_keystr name, go_len name, go_len name)).
+Proof. intros Hf. unfold go_KeyString_loop1_run. apply (keystring_loop_spec name fuel fuel 0%nat buf); lia. Qed.
+
+Lemma key_loop_spec q fuel : forall lf n buf, (n <= length (T_Question_Name q))%nat -> (length (T_Question_Name q) - n < lf)%nat ->
+  go_Key_loop1 fuel lf q buf (go_len (T_Question_Name q)) (Z.of_nat n) =
+  (GoNext, (q, buf ++ fold (skipn n (T_Question_Name q)), go_len (T_Question_Name q), go_len (T_Question_Name q))).
+Proof.
+  unfold go_len. set (name := T_Question_Name q). induction lf as [|lf IH]; intros n buf Hn Hf; [lia|].
+  cbn [go_Key_loop1]. fold name.
+  destruct (Z.ltb (Z.of_nat n) (Z.of_nat (length name))) eqn:E.
+  - apply Z.ltb_lt in E. rewrite (skipn_nth_cons 0 name n) by lia. rewrite !go_idx_nth by lia. rewrite Nat2Z.id.
+    set (x := nth n name 0). replace (Z.of_nat n + 1)%Z with (Z.of_nat (S n)) by lia.
+    cbn [fold map]. fold (fold (skipn (S n) name)). rewrite !IH by lia. fold_loop_step x.
+  - apply Z.ltb_ge in E. assert (n = length name) by lia. subst n. rewrite skipn_all. cbn [fold map]. rewrite app_nil_r. reflexivity.
+Qed.
+Lemma gen_Key_loop fuel q buf : (length (T_Question_Name q) < fuel)%nat ->
+  go_Key_loop1_run fuel q buf (go_len (T_Question_Name q)) =
+  (GoNext, (q, buf ++ map fold_key (T_Question_Name q), go_len (T_Question_Name q), go_len (T_Question_Name q))).
+Proof. intros Hf. unfold go_Key_loop1_run. apply (key_loop_spec q fuel fuel 0%nat buf); lia. Qed.
+
+Lemma keysimple_loop_spec q fuel : forall lf n buf, (n <= length (T_Question_Name q))%nat -> (length (T_Question_Name q) - n < lf)%nat ->
+  go_KeySimple_loop1 fuel lf q buf (Z.of_nat n) =
+  (GoNext, (q, buf ++ fold (skipn n (T_Question_Name q)), go_len (T_Question_Name q))).
+Proof.
+  unfold go_len. set (name := T_Question_Name q). induction lf as [|lf IH]; intros n buf Hn Hf; [lia|].
+  cbn [go_KeySimple_loop1]. unfold go_len. fold name.
+  destruct (Z.ltb (Z.of_nat n) (Z.of_nat (length name))) eqn:E.
+  - apply Z.ltb_lt in E. rewrite (skipn_nth_cons 0 name n) by lia. rewrite !go_idx_nth by lia. rewrite Nat2Z.id.
+    set (x := nth n name 0). replace (Z.of_nat n + 1)%Z with (Z.of_nat (S n)) by lia.
+    cbn [fold map]. fold (fold (skipn (S n) name)). rewrite !IH by lia. fold_loop_step x.
+  - apply Z.ltb_ge in E. assert (n = length name) by lia. subst n. rewrite skipn_all. cbn [fold map]. rewrite app_nil_r. reflexivity.
+Qed.
+Lemma gen_KeySimple_loop fuel q buf : (length (T_Question_Name q) < fuel)%nat ->
+  go_KeySimple_loop1_run fuel q buf = (GoNext, (q, buf ++ fold (T_Question_Name q), go_len (T_Question_Name q))).
+Proof. intros Hf. unfold go_KeySimple_loop1_run. apply (keysimple_loop_spec q fuel fuel 0%nat buf); lia. Qed.
+
+(* KeyWithPrefix ranges over nameLen (a range-over-int loop: its own budget, no fuel parameter) *)
+Lemma keywithprefix_loop_spec q : forall lf n buf, (n <= length (T_Question_Name q))%nat -> (length (T_Question_Name q) - n < lf)%nat ->
+  go_KeyWithPrefix_loop1 (go_len (T_Question_Name q)) lf (Z.of_nat n) q buf (go_len (T_Question_Name q)) =
+  (GoNext, (q, buf ++ fold (skipn n (T_Question_Name q)), go_len (T_Question_Name q))).
+Proof.
+  unfold go_len. set (name := T_Question_Name q). induction lf as [|lf IH]; intros n buf Hn Hf; [lia|].
+  cbn [go_KeyWithPrefix_loop1]. fold name.
+  destruct (Z.ltb (Z.of_nat n) (Z.of_nat (length name))) eqn:E.
+  - apply Z.ltb_lt in E. rewrite (skipn_nth_cons 0 name n) by lia. rewrite !go_idx_nth by lia. rewrite Nat2Z.id.
+    set (x := nth n name 0). replace (Z.of_nat n + 1)%Z with (Z.of_nat (S n)) by lia.
+    cbn [fold map]. fold (fold (skipn (S n) name)). rewrite !IH by lia. fold_loop_step x.
+  - apply Z.ltb_ge in E. assert (n = length name) by lia. subst n. rewrite skipn_all. cbn [fold map]. rewrite app_nil_r. reflexivity.
+Qed.
+Lemma gen_KeyWithPrefix_loop q buf :
+  go_KeyWithPrefix_loop1_run q buf (go_len (T_Question_Name q)) =
+  (GoNext, (q, buf ++ map fold_keypfx (T_Question_Name q), go_len (T_Question_Name q))).
+Proof.
+  unfold go_KeyWithPrefix_loop1_run. apply (keywithprefix_loop_spec q _ 0%nat buf); [lia|].
+  unfold go_len. rewrite Nat2Z.id. lia.
+Qed.
+
+(* hence the hand-written preimages are what the translated loops leave in the buffer after the header *)
+Lemma gen_pre_keystring fuel name qt qc cd : (length name < fuel)%nat ->
+  go_KeyString_loop1_run fuel name (header qt qc cd) (go_len name) =
+  (GoNext, (name, pre_keystring name qt qc cd, go_len name, go_len name)).
+Proof. intros Hf. rewrite gen_KeyString_loop by exact Hf. reflexivity. Qed.
+Lemma gen_pre_key fuel name qt qc cd : (length name < fuel)%nat ->
+  go_Key_loop1_run fuel (mk_T_Question name qt qc) (header qt qc cd) (go_len name) =
+  (GoNext, (mk_T_Question name qt qc, pre_key name qt qc cd, go_len name, go_len name)).
+Proof. intros Hf. exact (gen_Key_loop fuel (mk_T_Question name qt qc) (header qt qc cd) Hf). Qed.
+
 (* ---- middleware/cache.failureZoneKeysEqual (failure_cache.go): what load_fzone compares *)
 Lemma go_list_eqb_bytes a : forall b, go_list_eqb N.eqb a b = bytes_eqb a b.
 Proof.
@@ -115,6 +206,65 @@ Lemma gen_failureZoneKeysEqual z1 c1 z2 c2 :
   go_failureZoneKeysEqual (mk_T_FailureZoneKey z1 c1) (mk_T_FailureZoneKey z2 c2) = bytes_eqb z1 z2 && (c1 =? c2).
 Proof. unfold go_failureZoneKeysEqual. cbn. rewrite go_list_eqb_bytes. reflexivity. Qed.
 
-(* FailureCache.backoff's two literals *)
-Lemma gen_failure_backoff : failure_backoff_factor = 2 /\ failure_backoff_half = 2.
-Proof. split; reflexivity. Qed.
+(* ---- middleware/cache.FailureCache.backoff (purefunc; durations are ideal integers on the Go side, the
+   model counts in N): with fuel beyond the streak the translated function returns the model's backoff *)
+Lemma backoff_loop_stop k M t : (k = 0%nat \/ M <= t) -> backoff_loop k M t = t.
+Proof.
+  intros [->|Hle]; [reflexivity|]. destruct k; [reflexivity|]. cbn [backoff_loop].
+  destruct (t <? M) eqn:E; [apply N.ltb_lt in E; lia|reflexivity].
+Qed.
+
+Lemma backoff_go_loop c streak fuel :
+  (0 <= T_FailureCache_maxTTL c)%Z -> streak < 4294967296 ->
+  forall lf g t, (N.to_nat (streak - g) < lf)%nat ->
+  let M := Z.to_N (T_FailureCache_maxTTL c) in
+  let k := N.to_nat (streak - g) in
+  (exists st, go_FailureCache_backoff_loop1 fuel lf c streak (Z.of_N t) g = (GoRet (T_FailureCache_maxTTL c), st) /\
+              backoff_loop k M t = M) \/
+  (exists g', go_FailureCache_backoff_loop1 fuel lf c streak (Z.of_N t) g =
+              (GoNext, (c, streak, Z.of_N (backoff_loop k M t), g'))).
+Proof.
+  intros Hm Hs. cbv zeta. set (M := Z.to_N (T_FailureCache_maxTTL c)).
+  assert (HM : T_FailureCache_maxTTL c = Z.of_N M) by (unfold M; rewrite Z2N.id; lia).
+  induction lf as [|lf IH]; intros g t Hf; [lia|].
+  cbn [go_FailureCache_backoff_loop1]. rewrite HM.
+  destruct (N.ltb g streak) eqn:Eg; cbn [andb].
+  - apply N.ltb_lt in Eg.
+    destruct (Z.ltb (Z.of_N t) (Z.of_N M)) eqn:Et.
+    + apply Z.ltb_lt in Et. assert (Ht : t < M) by lia.
+      replace (N.to_nat (streak - g)) with (S (N.to_nat (streak - (g + 1)))) by lia.
+      cbn [backoff_loop].
+      assert (Et' : (t <? M) = true) by (apply N.ltb_lt; exact Ht). rewrite Et'.
+      assert (Hq : Z.quot (Z.of_N M) 2 = Z.of_N (M / 2)).
+      { rewrite Z.quot_div_nonneg by lia. rewrite N2Z.inj_div. reflexivity. }
+      rewrite Hq.
+      destruct (Z.ltb (Z.of_N (M / 2)) (Z.of_N t)) eqn:Eh.
+      * apply Z.ltb_lt in Eh. assert (Eh' : (M / 2 <? t) = true) by (apply N.ltb_lt; lia). rewrite Eh'.
+        left. eexists. split; reflexivity.
+      * apply Z.ltb_ge in Eh. assert (Eh' : (M / 2 <? t) = false) by (apply N.ltb_ge; lia). rewrite Eh'.
+        replace (Z.of_N t * 2)%Z with (Z.of_N (2 * t)) by lia.
+        replace (wrap32 (g + 1)) with (g + 1) by (symmetry; apply wrap32_small; unfold two32; lia).
+        rewrite <- HM. apply IH. lia.
+    + apply Z.ltb_ge in Et. right. exists g. rewrite backoff_loop_stop by (right; lia). reflexivity.
+  - apply N.ltb_ge in Eg. right. exists g. rewrite backoff_loop_stop by (left; lia). reflexivity.
+Qed.
+
+Lemma gen_FailureCache_backoff fuel c streak :
+  (0 <= T_FailureCache_initialTTL c)%Z -> (0 <= T_FailureCache_maxTTL c)%Z -> streak < 4294967296 ->
+  (N.to_nat streak < fuel)%nat ->
+  go_FailureCache_backoff fuel c streak =
+  Some (Z.of_N (backoff (Z.to_N (T_FailureCache_initialTTL c)) (Z.to_N (T_FailureCache_maxTTL c)) streak)).
+Proof.
+  intros Hi Hm Hs Hf. unfold go_FailureCache_backoff, backoff.
+  set (M := Z.to_N (T_FailureCache_maxTTL c)). set (I := Z.to_N (T_FailureCache_initialTTL c)).
+  assert (HM : T_FailureCache_maxTTL c = Z.of_N M) by (unfold M; rewrite Z2N.id; lia).
+  assert (HI : T_FailureCache_initialTTL c = Z.of_N I) by (unfold I; rewrite Z2N.id; lia).
+  rewrite HI.
+  destruct (backoff_go_loop c streak fuel Hm Hs fuel 1 I) as [[st [Hl Hb]]|[g' Hl]]; [lia| |];
+    fold M in Hl; try fold M in Hb; rewrite Hl.
+  - rewrite Hb, N.ltb_irrefl, HM. reflexivity.
+  - rewrite HM. set (r := backoff_loop (N.to_nat (streak - 1)) M I).
+    destruct (Z.ltb (Z.of_N M) (Z.of_N r)) eqn:E.
+    + apply Z.ltb_lt in E. assert (E' : (M <? r) = true) by (apply N.ltb_lt; lia). rewrite E'. reflexivity.
+    + apply Z.ltb_ge in E. assert (E' : (M <? r) = false) by (apply N.ltb_ge; lia). rewrite E'. reflexivity.
+Qed.
